@@ -66,7 +66,19 @@ type addrConn struct{ net.Conn }
 func (addrConn) LocalAddr() net.Addr  { return pipeAddr{} }
 func (addrConn) RemoteAddr() net.Addr { return pipeAddr{} }
 
+var (
+	certOnce sync.Once
+	certVal  tls.Certificate
+	certErr  error
+)
+
+// selfSigned: one certificate per process
 func selfSigned() (tls.Certificate, error) {
+	certOnce.Do(func() { certVal, certErr = newSelfSigned() })
+	return certVal, certErr
+}
+
+func newSelfSigned() (tls.Certificate, error) {
 	key, err := ecdsa.GenerateKey(elliptic.P256(), rand.Reader)
 	if err != nil {
 		return tls.Certificate{}, err
